@@ -27,14 +27,23 @@ class Case:
     def circuit(self, cirq, mods=None):
         qs = self.qids(cirq)
         c = cirq.Circuit()
+        self.op_of = {}        # id(cirq operation) -> Op, to read the circuit back moment by moment
+        self._keep = []
         for o, s in zip(self.ops, self.strategies):
             op = o.g.cirq_gate(cirq, mods).on(*[qs[w] for w in o.wires])
+            self.op_of[id(op)] = o
+            self._keep.append(op)
             c.append(op, strategy=cirq.InsertStrategy.NEW if s == 'N' else cirq.InsertStrategy.EARLIEST)
         # every wire is present: a trailing identity moment on the wires no operation touches
         idle = [q for q in qs if q not in c.all_qubits()]
         if idle:
             c.append(cirq.Moment(cirq.IdentityGate(qid_shape=(q.dimension,)).on(q) for q in idle))
         return c, qs
+
+    def prefix_case(self, circuit, k):
+        """The case made of the operations of the first k moments of `circuit` (built by self.circuit), in moment order."""
+        ops = [self.op_of[id(op)] for m in circuit[:k] for op in m if id(op) in self.op_of]
+        return Case(self.dims, ops, ['E'] * len(ops))
 
     def nontrivial(self):
         """>= 2 operations sharing a wire and >= 1 non-diagonal gate."""
